@@ -12,7 +12,8 @@ from enrlib import *
 import gens
 
 REC_FIELDS = ["seq", "nid", "sig", "pairs", "pk", "pku", "nidpk", "verify", "size", "enc", "text", "disp", "json", "id", "ip4", "ip6",
-              "tcp4", "tcp6", "udp4", "udp6", "s_udp4", "s_udp6", "s_tcp4", "s_tcp6", "r_udp", "r_tcp", "client", "acc", "glue"]
+              "tcp4", "tcp6", "udp4", "udp6", "s_udp4", "s_udp6", "s_tcp4", "s_tcp6", "r_udp", "r_tcp", "client", "acc", "glue", "alt"]
+REC_CMP = [k for k in REC_FIELDS if k != "alt"]   # alt exists only on json lines
 
 
 class Ctx:
@@ -76,6 +77,8 @@ def compare_cases(ctx, kt, cases, labels, fields_for, tag, monitor=None, nontriv
                 mv = fb.get(f)
                 if mv and mv != "none" and not all(utf8_ok(x) for x in mv.split(",")):
                     skip.add(f)
+            if ctx.pid in ("C04", "C12") and fa.get("alt", "1") != "1":
+                ctx.finding("monitor", kt, case, li, "the JSON form does not deserialise the same way through serde_json::from_str / from_slice / from_reader / from_value", a, b)
             d = diff_lines(a, b, flds, skip)
             if d:
                 ctx.finding("disagreement", kt, case, li, d, a, b)
@@ -255,6 +258,9 @@ def check_C13(ctx):
         # case = [decode item, decode item+suffix] (+ stream/list lines)
         if len(case) >= 2 and case[0].startswith("decode") and case[1].startswith("decode"):
             h0, f0 = parse_line(il[0]); h1, f1 = parse_line(il[1])
+            item = unhx(case[0].split()[1])
+            if rlp_item_len(item) != len(item):
+                return out  # the property speaks about buffers that begin with a COMPLETE item; a truncated one may be completed by what follows
             suf = (len(case[1].split()[1]) - len(case[0].split()[1])) // 2 if case[0].split()[1] != "-" else len(unhx(case[1].split()[1]))
             if cls(h0) != cls(h1):
                 out.append((1, "outcome changes with the suffix: alone=%s with %d-byte suffix=%s" % (first(h0), suf, first(h1))))
@@ -398,11 +404,11 @@ def mon_C06(ctx):
         out = []
         for i, cmd, h, f, prev in walk_history(case, il):
             if first(h) == "err" and cmd.startswith("op") and prev is not None and "seq" in f:
-                for k in REC_FIELDS:
+                for k in REC_CMP:
                     if f.get(k) != prev.get(k):
                         out.append((i, "failed update (%s) changed %s" % (f.get("kind"), k)))
                         break
-                if f.get("verify") != "1":
+                if f.get("verify") != "1" and prev.get("verify") == "1":
                     out.append((i, "record does not verify after a failed update"))
         return out
     return mon
@@ -575,6 +581,137 @@ def size_sweep_cases(ctx, kt):
     return cases
 
 
+def builder_reuse_cases(ctx, kt):
+    """the same Builder object used again: after a refused build (invalid value, oversize, signing fault) and after a
+    successful one, with and without further calls in between"""
+    rng, o = ctx.rng, ctx.oracle
+    a = gens.secrets(rng, o, kt, 1)[0]
+    pubs = [a.pub]
+    cases = []
+    bad_raw = ["raw/%s/%s" % (hx(b"custom"), "85"), "raw/%s/%s" % (hx(b"tcp"), "83010000"), "val/%s/s:%s" % (hx(b"id"), hx(b"v5")), "raw/%s/%s" % (hx(b"ip"), "8501020304")]
+    good = lambda: " ".join(gens.rand_bcalls(rng, pubs))
+    for _ in range(ctx.scale(10, 120)):
+        lines = ["key a " + a.spec]
+        c = rng.random()
+        if c < 0.35:
+            bad = rng.choice(bad_raw)
+            key = bad.split("/")[1]
+            lines.append("build a 0 1 ip4/c0000207 udp4/30303 %s %s" % (bad, good()))
+            lines.append("rebuild a 0")
+            lines.append("rebuild a 0 raw/%s/%s" % (key, rng.choice(["8161", "826162", "05"]) if key not in (hx(b"tcp"), hx(b"ip"), hx(b"id")) else {hx(b"tcp"): "820050", hx(b"ip"): "8401020304", hx(b"id"): "827634"}[key]))
+            lines.append("rebuild a 0")
+        elif c < 0.7:
+            big = hx(b"x" * rng.randrange(240, 300))
+            lines.append("build a 0 %d ip4/c0000207 tcp4/8080 udp6/9000 client/%s/%s/none val/%s/b:%s" % (rng.choice([1, 127, 65535]), hx(b"Nimbus"), hx(b"v1"), hx(b"zfill"), big))
+            lines.append("rebuild a 0 val/%s/b:%s" % (hx(b"zfill"), hx(b"y" * rng.randrange(0, 40))))
+            lines.append("rebuild a 0")
+        elif c < 0.85:
+            lines.append("build a 1 1 ip4/c0000207 udp4/30303 %s" % good())
+            lines.append("rebuild a 0")
+            lines.append("rebuild a 0 %s" % good())
+        else:
+            lines.append("build a 0 - %s" % good())
+            lines.append("rebuild a 0 %s" % good())
+            lines.append("rebuild a 0")
+        for _ in range(rng.randrange(0, 3)):
+            lines.append("op " + gens.rand_op(rng, ["a"], a.entry, pubs))
+        cases.append(lines)
+    return cases
+
+
+def size_neutral_cases(ctx, kt):
+    """records of exactly 296..300 bytes that already hold ip/udp/tcp/client entries, at sequence numbers whose encoding
+    grows on increment; then every kind of mutator with arguments that leave the size unchanged, with the record's key,
+    another key of the scheme, and (CombinedKey) a key of the other scheme: the second size check of every mutator is
+    the only thing between the caller and a 301-byte record"""
+    rng, o = ctx.rng, ctx.oracle
+    ks_all = gens.secrets(rng, o, kt, 4)
+    cases = []
+    for _ in range(ctx.scale(36, 400)):
+        ks = list(ks_all)
+        rng.shuffle(ks)   # under CombinedKey the record's key may be of either scheme, and the other keys too
+        a = ks[0]
+        same = [k for k in ks[1:] if k.scheme == a.scheme]
+        other = [k for k in ks[1:] if k.scheme != a.scheme]
+        siglen = 16 if a.scheme == "toy" else 64
+        seq = rng.choice([127, 255, 65535, 2**24 - 1, 2**32 - 1, 126, 5])
+        pairs = {b"id": rlp_str(b"v4"), a.entry: rlp_str(a.pub), b"ip": rlp_str(gens.rbytes(rng, 4)), b"udp": rlp_uint(30303), b"tcp": rlp_uint(30304)}
+        if rng.random() < 0.5:
+            pairs[b"ip6"] = rlp_str(gens.rbytes(rng, 16)); pairs[b"udp6"] = rlp_uint(9000)
+        if rng.random() < 0.4:
+            pairs[b"client"] = rlp_list(rlp_str(b"Nimbus") + rlp_str(b"v1"))
+        p2 = gens.pad_to(rng, seq, pairs, rng.choice([300, 300, 300, 299, 298, 296] + ([260, 270, 280, 290] if other else [])), siglen)
+        if not p2:
+            continue
+        b = record_bytes(o, a, seq, sorted(p2.items()))[0]
+        lines = ["key a " + a.spec]
+        slots = ["a"]
+        if same:
+            lines.append("key b " + same[0].spec); slots.append("b")
+        if other:
+            lines.append("key c " + other[0].spec); slots.append("c")
+        lines.append("load " + b.hex())
+        for _ in range(4):
+            slot = rng.choice(slots) if rng.random() < 0.4 else "a"
+            fail = rng.choice(["0", "0", "0", "1"])
+            c = rng.random()
+            if c < 0.2:
+                lines.append("op %s %s %s %s 30303" % (rng.choice(["set_udp_socket", "set_tcp_socket"]), slot, fail, gens.rbytes(rng, 16 if (b"ip6" in p2 and rng.random() < 0.5) else 4).hex()))
+            elif c < 0.35:
+                lines.append("op %s %s %s %d" % (rng.choice(["set_udp4", "set_tcp4"]), slot, fail, rng.choice([30303, 8080, 256])))
+            elif c < 0.45:
+                lines.append("op set_ip %s %s %s" % (slot, fail, gens.rbytes(rng, 4).hex()))
+            elif c < 0.55 and b"zfill" in p2:
+                n = len(p2[b"zfill"]) - (1 if len(p2[b"zfill"]) < 57 else 2)
+                lines.append("op insert %s %s %s b:%s" % (slot, fail, hx(b"zfill"), hx(b"w" * max(n, 2))))
+            elif c < 0.65:
+                lines.append("op remove_insert %s %s %s %s:%s" % (slot, fail, hx(b"udp"), hx(b"udp"), hx(b"\x76\x5f")))
+            elif c < 0.72:
+                lines.append("op remove_key %s %s %s" % (slot, fail, hx(b"nokey")))
+            elif c < 0.8:
+                lines.append("op set_seq %s %s %d" % (slot, fail, rng.choice([seq, seq + 1, 127, 128, 255])))
+            elif c < 0.86 and b"client" in p2:
+                lines.append("op set_client_info %s %s %s %s none" % (slot, fail, hx(b"Besuuu"), hx(b"v2")))
+            elif c < 0.93 and getattr(a, "pub_unc", None):
+                # the signer's own key in 65-byte uncompressed form: normalised to the compressed form by the update
+                lines.append("op insert %s %s %s b:%s" % (slot, fail, hx(a.entry), hx(a.pub_unc)))
+            else:
+                lines.append("op set_public_key %s %s %s" % (slot, fail, slot))
+        cases.append(lines)
+    return cases
+
+
+def cross_scheme_cases(ctx, kt):
+    """CombinedKey only: a record signed by an ed25519 key, 250..300 bytes, updated once with a secp256k1 key (the update
+    adds a 45-byte secp256k1 entry next to the ed25519 one and re-keys the record), and the other way round"""
+    if kt != "comb":
+        return []
+    rng, o = ctx.rng, ctx.oracle
+    ks = gens.secrets(rng, o, kt, 6)
+    eds = [k for k in ks if k.scheme == "ed"]
+    secps = [k for k in ks if k.scheme == "k"]
+    if not eds or not secps:
+        return []
+    cases = []
+    targets = [200, 254, 255, 256, 257, 258, 262, 270, 285, 296, 299, 300]
+    for (a, cc) in ((eds[0], secps[0]), (secps[0], eds[0])):
+        for target in (rng.sample(targets, 5) if ctx.quick else targets):
+            seq = rng.choice([5, 127, 255, 300, 65535])
+            pairs = {b"id": rlp_str(b"v4"), a.entry: rlp_str(a.pub), b"ip": rlp_str(gens.rbytes(rng, 4)), b"udp": rlp_uint(30303)}
+            p2 = gens.pad_to(rng, seq, pairs, target, 64)
+            if not p2:
+                continue
+            b = record_bytes(o, a, seq, sorted(p2.items()))[0]
+            head = ["key a " + a.spec, "key c " + cc.spec, "load " + b.hex()]
+            ops = ["op set_seq c 0 %d" % rng.choice([seq, max(seq - 1, 0), 1]), "op set_seq c 0 %d" % (seq + 1),
+                   "op insert c 0 %s b:%s" % (hx(b"q"), hx(b"w")), "op set_udp4 c 0 30303", "op remove_key c 0 %s" % hx(b"nokey"),
+                   "op remove_insert c 0 none %s:%s" % (hx(b"q"), hx(b"w")), "op set_udp_socket c 0 %s 30303" % gens.rbytes(rng, 4).hex(),
+                   "op set_public_key c 0 c", "op remove_udp4 c 0"]
+            for op in (rng.sample(ops, 4) if ctx.quick else ops):
+                cases.append(head + [op, "op set_udp4 c 0 80"])
+    return cases
+
+
 def port_cases(ctx, kt, ports):
     """C14: every given port on all four port keys through builder, setter, socket setter and decode"""
     rng, o = ctx.rng, ctx.oracle
@@ -625,6 +762,10 @@ def check_history_property(ctx):
             cases += hist_cases(ctx, kt, ctx.scale(12, 200), 6, start_fn=lambda rng: "build a 0 %d" % rng.choice(gens.SEQ_POOL))
         if pid in ("C09", "C05", "C06", "C10"):
             cases += size_sweep_cases(ctx, kt)
+            cases += size_neutral_cases(ctx, kt)
+            cases += cross_scheme_cases(ctx, kt)
+        if pid in ("C05", "C08", "C14", "C09"):
+            cases += builder_reuse_cases(ctx, kt)
         if pid == "C14":
             ports = sorted(set(gens.PORT_POOL + [ctx.rng.randrange(65536) for _ in range(ctx.scale(120, 0))])) if ctx.quick else list(range(65536))
             if kt in ("k256", "ed") or ctx.quick:
@@ -640,6 +781,10 @@ def check_history_property(ctx):
                     t = case[i].split()
                     t[3] = "1"
                     extra.append(case[:i] + [" ".join(t)] + case[i + 1:])
+                    if ctx.rng.random() < 0.5:
+                        # a signer that fails silently: Ok with a signature that does not verify
+                        t[3] = "2"
+                        extra.append(case[:i] + [" ".join(t)] + case[i + 1:])
             cases += extra
         compare_cases(ctx, kt, cases, None, fields_for, pid.lower(), mon)
         for c in cases:
@@ -677,6 +822,7 @@ def check_C04(ctx):
         # (b) histories, then round trips of every distinct record observed
         hcases = hist_cases(ctx, kt, ctx.scale(16, 300), (3, 15))
         hcases += [c for c in size_sweep_cases(ctx, kt) if any(l.startswith("build") for l in c)]
+        hcases += size_neutral_cases(ctx, kt)[:ctx.scale(16, 200)] + builder_reuse_cases(ctx, kt)[:ctx.scale(6, 60)]
         res = compare_cases(ctx, kt, hcases, None, lambda c, h: ["enc", "text", "json", "pairs", "seq", "sig"], "c04b")
         seen = {}
         for case, (il, ml) in zip(hcases, res):
@@ -685,16 +831,19 @@ def check_C04(ctx):
                     seen[f["enc"]] = (f, case[:i + 1])
         rcases, origs = [], []
         for enc, (f, origin) in seen.items():
-            rcases.append(["decode " + enc, "parse " + hx(f["text"].encode()), "parse " + hx(f["text"].encode()[4:]), "json " + f["json"]])
+            esc = b'"\\u0065' + f["text"].encode()[1:] + b'"'
+            rcases.append(["decode " + enc, "parse " + hx(f["text"].encode()), "parse " + hx(f["text"].encode()[4:]), "json " + f["json"], "json " + hx(esc)])
             origs.append((f, origin))
         rres = compare_cases(ctx, kt, rcases, ["roundtrip"] * len(rcases), lambda c, h: [k for k in REC_FIELDS], "c04r")
         for (f0, origin), rc, (il, ml) in zip(origs, rcases, rres):
             for i, l in enumerate(il):
                 h, f = parse_line(l)
+                if first(h) == "ok" and f.get("alt", "1") != "1":
+                    ctx.finding("monitor", kt, origin + [rc[i]], len(origin), "JSON of a record handed out deserialises differently through from_str / from_slice / from_reader / from_value", l, None)
                 if first(h) != "ok":
                     ctx.finding("monitor", kt, origin + [rc[i]], len(origin), "record handed out by the library is not accepted back (%s)" % rc[i].split()[0], l, None)
                     continue
-                for k in REC_FIELDS:
+                for k in REC_CMP:
                     if f.get(k) != f0.get(k):
                         ctx.finding("monitor", kt, origin + [rc[i]], len(origin), "field %s differs after a round trip through %s" % (k, rc[i].split()[0]), l, None)
                         break
@@ -725,7 +874,7 @@ def check_C12(ctx):
             if first(h) == "ok":
                 if f.get("enc") == f0["enc"] and s not in (text, text[4:]):
                     out.append((i, "a string other than the canonical text (with or without prefix) parses to the record: %r" % s[:80]))
-                if s in (text, text[4:]) and any(f.get(k) != f0.get(k) for k in REC_FIELDS):
+                if s in (text, text[4:]) and any(f.get(k) != f0.get(k) for k in REC_CMP):
                     out.append((i, "parsing the canonical text gives a different record"))
             elif s in (text, text[4:]):
                 out.append((i, "canonical string rejected"))
@@ -739,6 +888,8 @@ def check_C12(ctx):
             case = ["parse " + hx(eds[0][1])]
             for u in ctx.rng.sample(gens.utf8_strings(ctx.rng, r["bytes"]), 12):
                 eds.append(("utf8_multibyte", u))
+            case.append("json " + hx(b'"\\u0065' + eds[0][1][1:] + b'"'))
+            case.append("json " + hx(b'"' + eds[0][1] + b'"'))
             for lab, s in eds[1:]:
                 case.append("parse " + hx(s))
                 if ctx.rng.random() < 0.4:
@@ -771,7 +922,7 @@ def check_C15(ctx):
                     continue
                 if f["eqc"] != "1":
                     out.append((i, "a record differs from its clone"))
-                if {a, b} == {6, 7} and f["eq"] != "1":
+                if ({a, b} == {6, 7} or {a, b} == {9, 10}) and f["eq"] != "1":
                     out.append((i, "a record differs from its decode-after-encode image"))
                 if a == b and f["eq"] != "1":
                     out.append((i, "equality is not reflexive"))
@@ -811,6 +962,10 @@ def check_C15(ctx):
             lines += ["use 2", "op set_seq a 0 5", "save 6"]
             # the decode-after-encode image of the current record
             lines += ["recode 7"]
+            tail = []
+            kx = hx(ctx.rng.choice([b"x", b"udp4-name", b"tcp-alt", b"zz"]))
+            tail += ["op insert_raw a 0 %s 826162" % kx, "op set_seq a 0 9", "save 8", "op insert_raw a 0 %s c26162" % kx, "op set_seq a 0 9", "save 9",
+                     "pair 8 9", "pair 9 8", "recode 10", "pair 9 10", "pair 10 9"]
             n = 8
             for i in range(n):
                 for j in range(n):
@@ -818,7 +973,7 @@ def check_C15(ctx):
                         lines.append("pair %d %d" % (i, j))
                         if ctx.rng.random() < 0.3:
                             lines.append("pair %d %d" % (j, i))
-            cases.append(lines)
+            cases.append(lines + tail)
         res = compare_cases(ctx, kt, cases, None, lambda c, h: ["eq", "heq", "cc", "eqc", "seq", "pairs", "sig", "nid", "enc"], "c15", mon)
 
 
@@ -967,6 +1122,16 @@ def check_C03(ctx):
             for lab, b in gens.structural_mutants(rng, ctx.oracle, r):
                 cases.append(["decode " + hx(b)])
         cases += hist_cases(ctx, gkt, ctx.scale(12, 300), (5, 30))
+        # states that only failing calls reach: histories from 2^64-1 / near the size limit / with signing faults, reused builders
+        extra = hist_cases(ctx, gkt, ctx.scale(8, 150), 8, start_fn=lambda rng: "build a 0 %d" % rng.choice([2**64 - 1, 2**64 - 1, 2**64 - 2, 127]))
+        extra += size_neutral_cases(ctx, gkt)[:ctx.scale(12, 200)] + size_sweep_cases(ctx, gkt)[:ctx.scale(12, 200)] + builder_reuse_cases(ctx, gkt)[:ctx.scale(8, 100)]
+        for case in list(extra[:ctx.scale(10, 100)]):
+            ops = [i for i, c in enumerate(case) if c.startswith("op ")]
+            for i in ops[:4]:
+                t = case[i].split()
+                t[3] = rng.choice(["1", "2"])
+                extra.append(case[:i] + [" ".join(t)] + case[i + 1:])
+        cases += extra
         if kt == "k256":
             for _ in range(ctx.scale(60, 2000)):
                 s = gens.rbytes(rng, rng.randrange(0, 70)) if rng.random() < 0.5 else bytes(rng.choice(b"0123456789abcdefxX") for _ in range(rng.randrange(0, 70)))
